@@ -114,6 +114,7 @@ def stepLine (d : DSt) (ws : List String) : DSt × List String :=
       let b? : Option Beh := match kind with
         | "reply" => some (.reply ri false pl) | "replyc" => some (.reply ri true pl)
         | "upgrade" => some (.reply ri false pl) | "suspend" => some (.suspend ri pl)
+        | "upgradec" => some (.upgradeClose ri pl)
         | "bad" => if pl.isEmpty then some .bad else none
         | _ => none
       match b? with
